@@ -41,6 +41,7 @@ ASSUMPTIONS = [
     "a hang is detected deterministically: > 64 retry pauses, > 700 requests or > 40 announced download/decompression steps in one preparation; wall clock only feeds the framework watchdog",
 ]
 REQUIRED_CLAUSES = [
+    "every-corpus-prepared",
     "terminates-within-retry-budget",
     "no-partial-file-under-final-name",
     "doc-exists",
@@ -366,7 +367,7 @@ def materialise(case, workdir, port):
         uncomp += 3
     lines = len(env.ends)
     env.call = {
-        "entry": case["entry"], "roots": env.roots, "doc_name": env.doc_name, "archive_name": env.arc_name, "meta": case["corpus"]["meta"],
+        "entry": case["entry"], "position": case.get("rseed", 0), "roots": env.roots, "doc_name": env.doc_name, "archive_name": env.arc_name, "meta": case["corpus"]["meta"],
         "n_docs": lines // 2 if case["corpus"]["meta"] else lines, "comp": comp, "uncomp": uncomp,
         "offline": case["net"]["mode"] == "offline", "test_mode": case["net"]["test_mode"],
     }
@@ -433,6 +434,8 @@ def run_real(env):
         out = {"raised": type(e).__name__, "msg": str(e)[:160]}
     out["sleeps"] = D.SLEEP.calls
     out["marks"] = sorted(D.TAP.marks)
+    if env.call.get("entry") == "docs":
+        out["decoys_unprepared"] = list(D.DECOYS_UNPREPARED)
     return out
 
 
@@ -516,6 +519,11 @@ def observe(ctx, env, run, pre, post, out, srv_state, crash_info, first_pre):
     returned_ok = "returned" in out and not (case["entry"] == "bundled" and out["returned"] is False)
     if not returned_ok:
         return problems, facts
+    if case["entry"] == "docs":
+        # preparation of the track returned normally: every corpus the challenge uses has been prepared, not just one of them
+        ctx.clause("every-corpus-prepared")
+        if out.get("decoys_unprepared"):
+            problems.append(("every-corpus-prepared", f"track preparation returned normally but the corpora {out['decoys_unprepared']} of the same challenge were never prepared (no offset table next to their document file)", facts))
 
     # -- post-state after a NORMAL return
     ri = next((i for i, s in enumerate(post) if s["doc"] is not None), None)
